@@ -3,3 +3,4 @@ pub mod c13;
 pub mod faults;
 pub mod c15;
 pub mod c16;
+pub mod c07;
